@@ -291,6 +291,11 @@ func (p *parser) unary() Expr {
 		op := p.next().val
 		return &Unary{op, p.unary()}
 	}
+	if p.isOp("*") {
+		// pointer type name, only meaningful as the type argument of typeis(x, *T)
+		p.next()
+		return &Ident{"*" + strings.ReplaceAll(p.unary().String(), " ", "")}
+	}
 	return p.postfix()
 }
 
